@@ -92,6 +92,7 @@ type interpreter struct {
 	run                *pathRun               // symbolic state of the path being executed
 	errorStringPtr     types.Type
 	building           bool // running shared package initialisers
+	tolerant           bool // running per-path package initialisers (failed calls yield zero values)
 	eng                *Engine
 }
 
@@ -460,7 +461,7 @@ func loc(fset *token.FileSet, pos token.Pos) string {
 // and lexical environment env, returning its result.
 // callpos is the position of the callsite.
 func callSSA(i *interpreter, caller *frame, callpos token.Pos, fn *ssa.Function, args []value, env []value) value {
-	if i.building {
+	if i.building || i.tolerant {
 		return callTolerant(i, caller, callpos, fn, args, env)
 	}
 	if i.eng.isPure(fn) {
